@@ -33,6 +33,10 @@ def arc_angles(rng):
     if k < 0.3:   # on the 1/64-turn grid
         a1 = (rng.randrange(64) / 64.0) * 2 * math.pi
         a2 = (rng.randrange(64) / 64.0) * 2 * math.pi
+    if 0.3 <= k < 0.36:
+        a2 = 0.0          # an arc that ends exactly on the plane's x axis
+    elif 0.36 <= k < 0.4:
+        a1 = 0.0
     if a1 == a2:
         a2 = (a1 + 1.0) % (2 * math.pi)
     return a1, a2
